@@ -10,9 +10,10 @@ git apply -R seeded/patch.diff || { echo "cannot revert"; exit 2; }
 echo "### demo WITHOUT change"; ( "$@" ) > /tmp/confirm.$$.without 2>&1; wo=$?; tail -3 /tmp/confirm.$$.without; echo "exit_without=$wo"
 git apply seeded/patch.diff || { echo "cannot re-apply"; exit 2; }
 echo "### existing suite WITH change (demo moved aside)"
-mkdir -p /tmp/aside.$$; for f in tough/tests/seeded_*; do [ -e "$f" ] && mv "$f" /tmp/aside.$$/; done
+mkdir -p /tmp/aside.$$/tough /tmp/aside.$$/tuftool
+for d in tough tuftool; do for f in $d/tests/seeded_*; do [ -e "$f" ] && mv "$f" /tmp/aside.$$/$d/; done; done
 cargo test --workspace --no-fail-fast --offline > /tmp/confirm.$$.suite 2>&1; s=$?
-for f in /tmp/aside.$$/*; do [ -e "$f" ] && mv "$f" tough/tests/; done; rmdir /tmp/aside.$$ 2>/dev/null
+for d in tough tuftool; do for f in /tmp/aside.$$/$d/*; do [ -e "$f" ] && mv "$f" $d/tests/; done; done; rm -rf /tmp/aside.$$
 grep -E "^test result" /tmp/confirm.$$.suite | awk '{p+=$4; f+=$6} END {print "suite passed",p,"failed",f}'; echo "suite_exit=$s"
 rm -f /tmp/confirm.$$.*
 [ $w -ne 0 ] && [ $wo -eq 0 ] && [ $s -eq 0 ] && echo "CONFIRMED" || echo "NOT CONFIRMED"
